@@ -562,8 +562,8 @@ class _Relatable(_LexiconElement):
         queue = self.get_related(*args)
         while queue:
             relatable = queue.pop(0)
-            if relatable.id not in visited:
-                visited.add(relatable.id)
+            if relatable not in visited:
+                visited.add(relatable)
                 yield relatable
                 queue.extend(relatable.get_related(*args))
 
